@@ -90,7 +90,12 @@ def cell(v, dt):
     return STR[v]
 
 
-def cells(vs, dt):
+BIG = 2 ** 53   # integer data lie beyond the range float64 represents exactly: an export through floats shows
+
+
+def cells(vs, dt, data=True):
+    if dt == 'i' and data:
+        return [int(v) + BIG if v != 0 else 0 for v in vs]   # (0 is also the constructor's default for a variable that was not exported)
     return [cell(v, dt) for v in vs]
 
 
@@ -164,7 +169,7 @@ def state_diffs(mdl, ms, labels):
             out.append(f'series:{n}')
     if not same_cells(d['_status'].tolist(), cells(ms['st'], 's'), 's'):
         out.append('status')
-    if not same_cells(d['_iterations'].tolist(), cells(ms['it'], 'i'), 'i'):
+    if not same_cells(d['_iterations'].tolist(), cells(ms['it'], 'i', data=False), 'i'):
         out.append('iterations')
     if len(list(mdl.span)) != len(labels) or any(a != b for a, b in zip(list(mdl.span), list(labels))):
         out.append('span')
@@ -188,7 +193,7 @@ def table_diffs(df, t, ser_dt, labels):
         dt = t['dtk'][i]
         if dtype_kind(col.dtype) != dt:
             out.append(('dtype', c))
-        if not same_cells(col.tolist(), cells(t['cells'][i], dt), dt):
+        if not same_cells(col.tolist(), cells(t['cells'][i], dt, data=(c != 'iterations')), dt):
             out.append(('cells', c))
     return out
 
